@@ -4,10 +4,8 @@
 package poolctl
 
 import (
-	"fmt"
-	"syscall"
-
 	vs "pipelined.dev/signal/verifsync"
+	"verif/mc/schedx"
 )
 
 // Seq is the controller of one sequential history (bound to one goroutine).  Which item a
@@ -21,16 +19,16 @@ type Seq struct {
 	Puts   int
 	News   int
 	held   map[*vs.Mutex]bool
-	tid    int
+	g      uintptr
 }
 
 func NewSeq(choose func(n int) int) *Seq {
 	return &Seq{Free: map[*vs.Pool][]any{}, Choose: choose, held: map[*vs.Mutex]bool{}}
 }
 
-func (s *Seq) PoolGet(p *vs.Pool) (any, bool) {
-	if t := syscall.Gettid(); t != s.tid {
-		panic(fmt.Sprintf("poolctl: Get routed to the controller bound on thread %d from thread %d", s.tid, t))
+func (s *Seq) PoolGet(p *vs.Pool) (any, bool, bool) {
+	if schedx.G() != s.g {
+		return nil, false, false // not the goroutine this controller is bound to
 	}
 	s.Gets++
 	fl := s.Free[p]
@@ -40,16 +38,20 @@ func (s *Seq) PoolGet(p *vs.Pool) (any, bool) {
 	}
 	if k >= len(fl) {
 		s.News++
-		return nil, false
+		return nil, false, true
 	}
 	x := fl[k]
 	s.Free[p] = append(append([]any{}, fl[:k]...), fl[k+1:]...)
-	return x, true
+	return x, true, true
 }
 
-func (s *Seq) PoolPut(p *vs.Pool, x any) {
+func (s *Seq) PoolPut(p *vs.Pool, x any) bool {
+	if schedx.G() != s.g {
+		return false
+	}
 	s.Puts++
 	s.Free[p] = append(s.Free[p], x)
+	return true
 }
 
 // FreeCount is the total number of pooled items.
@@ -70,23 +72,28 @@ func (s *Seq) AllFree() []any {
 	return r
 }
 
-func (s *Seq) Lock(m *vs.Mutex) {
+func (s *Seq) Lock(m *vs.Mutex) bool {
+	if schedx.G() != s.g {
+		return false
+	}
 	if s.held[m] {
 		panic("verif: sequential history locks a mutex it already holds (deadlock)")
 	}
 	s.held[m] = true
+	return true
 }
 
-func (s *Seq) Unlock(m *vs.Mutex) { delete(s.held, m) }
+func (s *Seq) Unlock(m *vs.Mutex) bool {
+	if schedx.G() != s.g {
+		return false
+	}
+	delete(s.held, m)
+	return true
+}
 
 // Bind attaches s to the calling goroutine; the returned function detaches it.
 func (s *Seq) Bind() func() {
+	s.g = schedx.G()
 	vs.Bind(s)
-	s.tid = syscall.Gettid()
-	return func() {
-		if t := syscall.Gettid(); t != s.tid {
-			panic(fmt.Sprintf("poolctl: bound on thread %d, unbinding on thread %d", s.tid, t))
-		}
-		vs.Unbind()
-	}
+	return vs.Unbind
 }
